@@ -831,6 +831,55 @@ def run_c17(ck, ctx):
         ck.count('stop_closed_stdout')
         if 'panicked' in errs or rc not in (0, 1):
             ck.violation('panic', {'what': 'stdout closed after %d bytes: panic / abnormal exit' % k, 'args': args, 'exit': rc, 'stderr': errs[-500:]})
+    # ---- stdout closed while the input keeps arriving (a producer that never ends, e.g. a live read-out piped through `| head`):
+    # the end of the input cannot be what stops the tool here, only the broken pipe can
+    chunk = base * 4
+    for rep, args in enumerate([['view', 'rdh'], ['view', 'its-readout-frames'], ['view', 'its-readout-frames-data'], ['-f', '1'], ['-f', '2', '-o', 'stdout']]):
+        b = bins[rep % len(bins)]
+        env = dict(os.environ, FASTPASTA_VERIF_SCHED=str(rep + 1)) if b == L.HOOKBIN else None
+        p = subprocess.Popen([b] + args, stdin=subprocess.PIPE, stdout=subprocess.PIPE, stderr=subprocess.PIPE, env=env)
+        stop_feed = threading.Event()
+
+        def feed(p=p, ev=stop_feed):
+            try:
+                while not ev.is_set():
+                    p.stdin.write(chunk)
+            except (BrokenPipeError, OSError, ValueError):
+                pass
+            try: p.stdin.close()
+            except Exception: pass
+        ft = threading.Thread(target=feed, daemon=True); ft.start()
+        errbuf = []
+        th = threading.Thread(target=lambda p=p, e=errbuf: e.append(p.stderr.read()), daemon=True); th.start()
+        k = [200, 5000, 100000][rep % 3]
+        got, tend = 0, time.time() + BOUND
+        try:
+            while got < k and time.time() < tend:
+                r, _, _ = select.select([p.stdout], [], [], 0.5)
+                if r:
+                    c = os.read(p.stdout.fileno(), min(65536, k - got))
+                    if not c: break
+                    got += len(c)
+            p.stdout.close()
+        except Exception: pass
+        ck.case(('closed_stdout_endless_input', rep)); ck.count('stop_closed_stdout_endless_input')
+        t0 = time.time()
+        try:
+            rc = p.wait(timeout=10.0)
+        except subprocess.TimeoutExpired:
+            rc = None
+        stop_feed.set()
+        if rc is None:
+            p.kill(); p.wait()
+            ck.violation('hang', {'what': 'stdout closed after %d bytes while the input keeps arriving on stdin: the process was still running 10 s later '
+                                          '(the broken pipe is not noticed; only the end of the input would stop it)' % got, 'args': args,
+                                  'binary': 'hook' if b == L.HOOKBIN else 'release',
+                                  'replay': 'while true; do cat conforming.raw; done | fastpasta ' + ' '.join(args) + ' | head -c %d' % k})
+        else:
+            errs = L.ANSI.sub('', (errbuf[0] if (th.join(5) or errbuf) else b'').decode('utf-8', 'replace'))
+            if 'panicked' in errs or rc not in (0, 1):
+                ck.violation('panic', {'what': 'stdout closed while the input keeps arriving: panic / abnormal exit', 'args': args, 'exit': rc, 'stderr': errs[-500:]})
+        ft.join(5)
     # ---- error cap reached / fatal error in mid-stream (full queues behind it)
     for rep in range(nrep):
         b = bins[rep % len(bins)]
